@@ -987,6 +987,24 @@ theorem datatype_selectors_regenerated (fwd : Bool) (e : Info × Info) :
     dtSendCont fwd = some (if fwd then .first else .second) ∧ dtSendTypeCont fwd = dtSendCont fwd :=
   dtSelectors_spec fwd e
 
+/-- **loops_regenerated.**  The counting loops of `MessageSizeCalculator<Data,VariableSize>`, of both `MessageGatherer`s and of
+    both `MessageScatterer`s, with start value and condition as read from the current communicator.hh, visit exactly
+    `0 … n-1` (`n` = `info.size()` resp. `CommPolicy::getSize(data, info[i])`); with the statements the translator recognised
+    (`entries += getSize(data, info[i])`; `buffer[index++] = gather(data, info[i][, j])`; `scatter(data, buffer[index++ | i],
+    info[i][, j])`; `index` set to 0 once per call and advanced once per element) the nested loops compute the model's
+    `sizeCalc` and enumerate the model's `slots` — the order in which `gatherBuf` fills and `scatterCalls` reads a message. -/
+theorem loops_regenerated (cs : Nat → Nat) (info : Info) :
+    (∀ n, Gen.loop_sizeVarI n = List.range n ∧ Gen.loop_gatherOneI n = List.range n ∧ Gen.loop_gatherVarI n = List.range n ∧
+      Gen.loop_gatherVarJ n = List.range n ∧ Gen.loop_scatterOneI n = List.range n ∧ Gen.loop_scatterVarI n = List.range n ∧
+      Gen.loop_scatterVarJ n = List.range n) ∧
+    (((Gen.loop_sizeVarI info.size).map fun i => cs (info.idx.getD i 0)).sum = sizeCalc cs info ∧
+      slotsLoop Gen.loop_gatherVarI Gen.loop_gatherVarJ cs info = slots cs info ∧
+      slotsLoop Gen.loop_gatherOneI (fun _ => [0]) cs info = slots (fun _ => 1) info ∧
+      slotsLoop Gen.loop_scatterVarI Gen.loop_scatterVarJ cs info = slots cs info ∧
+      slotsLoop Gen.loop_scatterOneI (fun _ => [0]) cs info = slots (fun _ => 1) info) ∧
+    Gen.counter_gatherOne = (0, 1) ∧ Gen.counter_gatherVar = (0, 1) ∧ Gen.counter_scatterVar = (0, 1) :=
+  ⟨loops_spec, loopsModel_spec cs info, rfl, rfl, rfl⟩
+
 /-! ## Non-vacuity: the hypotheses are satisfiable by non-trivial decompositions
 
 `exSys`: three processes, one index set each (global, local, attribute, public); attributes 0 = owner,
@@ -1201,5 +1219,8 @@ example : pick (Gen.gatherOneIndex.side false) ((⟨1, [4]⟩, ⟨1, [9]⟩) : I
 example : (⟨(5 : Nat), 6, false⟩ : Cont Nat).one = false ∧ argOf (⟨(5 : Nat), 6, false⟩ : Cont Nat) Gen.backward2.gatherArg = 6 := by decide
 example : dtFlagOf false = some false ∧ dtPassOf (Gen.dtReqRecvType.side false) = some true ∧
     dtRecvList false ((⟨1, [4]⟩, ⟨1, [9]⟩) : Info × Info) = some ⟨1, [4]⟩ ∧ dtRecvCont false = some .first := by decide
+
+example : Gen.loop_gatherVarI 3 = [0, 1, 2] ∧ Gen.loop_scatterVarJ 0 = [] := by decide
+example : slotsLoop Gen.loop_gatherVarI Gen.loop_gatherVarJ (fun l => l % 3) ⟨3, [4, 9, 5]⟩ = [(4, 0), (5, 0), (5, 1)] := by decide
 
 end DV.C05
